@@ -495,7 +495,7 @@ func (c *Ctx) leaves(elem types.Type) []leaf {
 	walk = func(b string, t types.Type) {
 		switch classify(t) {
 		case TSlice:
-			for _, sfx := range []string{"$arr", "$off", "$len", "$cap"} {
+			for _, sfx := range []string{"$arr", "$len", "$cap"} {
 				out = append(out, leaf{b + sfx, SInt, IntLit(0)})
 			}
 		case TStruct:
